@@ -245,7 +245,9 @@ func genBitCase(t *rapid.T) BitCase {
 		c.Len = rapid.IntRange(1, maxLen).Draw(t, "lenAny")
 	}
 	th := c.Threshold
-	near := []float32{th, math.Nextafter32(th, 1e30), math.Nextafter32(th, -1e30), 0, 1, -1, 2 * th, th + 1, th - 1, float32(math.Inf(1)), float32(math.Inf(-1))}
+	near := []float32{th, math.Nextafter32(th, 1e30), math.Nextafter32(th, -1e30), 0, 1, -1, 2 * th, th + 1, th - 1, float32(math.Inf(1)), float32(math.Inf(-1)),
+		// not a number (a MessagePack body can carry it): not greater than any threshold, its bit is not set
+		float32(math.NaN())}
 	nx := rapid.IntRange(1, 9).Draw(t, "nx")
 	ny := rapid.IntRange(1, 9).Draw(t, "ny")
 	for i := 0; i < nx; i++ {
